@@ -158,6 +158,10 @@ func getFields(n map[string]ast.Node) (map[string]fields.Field, error) {
 						parent.Children = append(parent.Children, f)
 					}
 				}
+				// the type of a field is not part of this struct: do not
+				// pick up the parameters of a func field or the members
+				// of an anonymous struct field as if they were columns
+				return false
 			}
 			return true
 		})
